@@ -7,11 +7,12 @@ from common import Work
 
 FUEL = 400
 
-def gen_programs(run, n, max_stmts, max_depth, gate_subword):
+def gen_programs(run, n, max_stmts, max_depth, gate_subword, fnlits=True):
     progs = []
     feats = {}
     for i in range(n):
         g = core.Gen(run.rng, max_stmts=max_stmts, max_depth=max_depth)
+        g.fnlits = fnlits
         p = g.program()
         progs.append(p)
         for k, v in g.features.items():
